@@ -29,6 +29,13 @@ fn units(thorough: bool) -> Vec<Unit> {
         d[n - 1] = d[n - 2];
         out.push(Unit { alpha: order_alphabet(&d), positive: true, nasty: false, ends: d });
     }
+    for n in 18..=(if thorough { 600 } else { 300 }) {
+        let ends = iota(n);
+        out.push(Unit { alpha: order_alphabet(&ends), positive: false, nasty: false, ends });
+        let mut d = iota(n);
+        d[n / 2] = d[n / 2 - 1];
+        out.push(Unit { alpha: order_alphabet(&d), positive: false, nasty: false, ends: d });
+    }
     for ends in big_shapes(thorough, 1025) {
         out.push(Unit { alpha: order_alphabet(&ends), positive: false, nasty: false, ends });
     }
@@ -130,7 +137,7 @@ pub fn check(thorough: bool, _seed: u64) -> Check {
         bounds: json!({
             "shapes": if thorough {"all non-decreasing end lists of length 1..6 over {1..6} and of length 1..5 over the nasty set {-MAX,-1,-2^-1022,-0.0,+0.0,5e-324,1,succ(1),1e300,MAX,+inf}"}
                       else {"all non-decreasing end lists of length 1..5 over {1..5} and of length 1..4 over the nasty set {-MAX,-1,-2^-1022,-0.0,+0.0,5e-324,1,succ(1),1e300,MAX,+inf}"},
-            "long_lists": "1..n for n=6..17 (40 thorough) and for the threshold sizes (8..257 quick, 7..1025 thorough), plain and with duplicate runs; lists over {-1e6,-1,1e-7,1e6,1e7}, {1,1+1e-10,1+2e-10,1+1e-9}, {1e5,1e5(1+1e-12),1e6,3e6,1e7}",
+            "every_length": "1..n for every n up to 300 (600 thorough), plain and with the middle end duplicated", "long_lists": "1..n for n=6..17 (40 thorough) and for the threshold sizes (8..257 quick, 7..1025 thorough), plain and with duplicate runs; lists over {-1e6,-1,1e-7,1e6,1e7}, {1,1+1e-10,1+2e-10,1+1e-9}, {1e5,1e5(1+1e-12),1e6,3e6,1e7}",
             "queries": "order-complete alphabet A(ends): -inf,-MAX, below first end, each end and both one-ulp neighbours, >=2 interior points per cell, above last end, MAX, +inf",
             "piece_types": "Probe (identifies piece and argument), Poly1, Poly3, Log<Poly8> (positive ends only)"
         }),
